@@ -577,17 +577,27 @@ void run_c03(const std::vector<std::vector<std::string>>& cases, vt::Rng& rng)
    for (const auto& c : cases) {
       const std::string& id = c.at(0);
       const int ytype = std::stoi(c.at(1));
-      const bool gauge = c.at(2) == "gauge", offd = c.at(3) == "1";
+      const bool gauge = c.at(2) == "gauge", offd = c.at(3) != "0";
       ThdmPt p = vm::random_thdm_mass(rng, ytype, offd);
       p.mb.tan_beta = tb_of(c.at(4), rng);
       p.mb.m122 = p.mb.mA * p.mb.mA * p.mb.tan_beta / (1 + p.mb.tan_beta * p.mb.tan_beta) * rng.uni(0.5, 1.5);
       if (offd) {      // sizeable lepton-flavour-violating entries
-         if (ytype == 5) p.mb.Delta_l = vm::rand33(rng, 0.2);
-         if (ytype == 6) p.mb.Pi_l = vm::rand33(rng, 0.2);
+         Eigen::Matrix<double, 3, 3> lfv = vm::rand33(rng, 0.2);
+         if (c.at(3) == "2") {
+            // sparse: one or two single entries, exact zeros elsewhere (one-sided couplings of the muon)
+            Eigen::Matrix<double, 3, 3> sp = Eigen::Matrix<double, 3, 3>::Zero();
+            for (int n = 1 + rng.below(2); n > 0; --n) {
+               const int other = rng.coin() ? 0 : 2;
+               if (rng.coin()) sp(1, other) = lfv(1, other); else sp(other, 1) = lfv(other, 1);
+            }
+            lfv = sp;
+         }
+         if (ytype == 5) p.mb.Delta_l = lfv;
+         if (ytype == 6) p.mb.Pi_l = lfv;
       }
       p.sm.set_mv(0, rng.coin() ? 0.0 : rng.logu(1e-12, 1e-9)); p.sm.set_mv(1, rng.coin() ? 0.0 : rng.logu(1e-12, 1e-9));
       p.sm.set_mv(2, rng.coin() ? 0.0 : rng.logu(1e-12, 1e-9));
-      const std::string sig = std::string("thdm/type") + c.at(1) + "/" + c.at(2) + (offd ? "/offdiag/" : "/diag/") + c.at(4);
+      const std::string sig = std::string("thdm/type") + c.at(1) + "/" + c.at(2) + (c.at(3) == "2" ? "/sparse/" : offd ? "/offdiag/" : "/diag/") + c.at(4);
       Built b = build(p);
       if (b.exc.empty() && gauge) {
          // rebuild the same point from its gauge-basis parameters
